@@ -270,6 +270,61 @@ match churn 64 Nil with
         }
         if bad { std::process::exit(9); }
     }
+    if which == "lazygc" {
+        // C14: a child thread forcing an already evaluated lazy value while an ancestor collects on another OS thread
+        let child = vm.new_thread().unwrap();
+        let (tx, rx) = std::sync::mpsc::channel();
+        let tx2 = tx.clone();
+        let root = vm.clone();
+        let stop = std::sync::Arc::new(std::sync::atomic::AtomicBool::new(false));
+        let stop2 = stop.clone();
+        std::thread::spawn(move || {
+            let mut n = 0u64;
+            while !stop2.load(std::sync::atomic::Ordering::Relaxed) { root.collect(); n += 1; }
+            tx2.send(format!("collector finished after {} collections", n)).unwrap();
+        });
+        std::thread::spawn(move || {
+            let control = std::env::args().nth(2).map_or(false, |a| a == "control");
+            // control: the same loop calling another primitive on a heap value instead of `force`
+            let src = if control { r#"
+let array = import! std.array
+let l = [1, 2, 3]
+let loop n acc : Int -> Int -> Int = if n #Int== 0 then acc else (let _ = array.len l in loop (n #Int- 1) (acc #Int+ 1))
+loop 5000 0
+"# } else { r#"
+let { lazy, force } = import! std.lazy
+let l = lazy (\_ -> [1, 2, 3])
+let _ = force l
+let loop n acc : Int -> Int -> Int = if n #Int== 0 then acc else (let _ = force l in loop (n #Int- 1) (acc #Int+ 1))
+loop 5000 0
+"# };
+            let r = child.run_expr::<i32>("forcer", src).map(|x| x.0).map_err(|e| e.to_string());
+            tx.send(format!("forcer finished: {:?}", r)).unwrap();
+        });
+        match rx.recv_timeout(std::time::Duration::from_secs(60)) {
+            Ok(m) => { println!("{}", m); stop.store(true, std::sync::atomic::Ordering::Relaxed); println!("{}", rx.recv_timeout(std::time::Duration::from_secs(30)).unwrap_or("collector: no answer".into())); }
+            Err(_) => { println!("DEADLOCK: neither the forcing thread nor the collecting thread made progress for 60s"); std::process::exit(10); }
+        }
+    }
+    if which == "recorder" {
+        // C02: a record literal whose fields are written in another order than its annotation
+        let progs = [
+            ("annotated-reordered", r#"let r : { x : Int, y : String } = { y = "a", x = 2 } in r.x #Int+ 1"#),
+            ("annotated-same-order", r#"let r : { x : Int, y : String } = { x = 2, y = "a" } in r.x #Int+ 1"#),
+            ("unannotated", r#"let r = { y = "a", x = 2 } in r.x #Int+ 1"#),
+            ("via-binding", r#"let q = { y = "a", x = 2 } in let r : { x : Int, y : String } = q in r.x #Int+ 1"#),
+            ("arg-reordered", r#"let f r : { x : Int, y : String } -> Int = r.x #Int+ 1 in f { y = "a", x = 2 }"#),
+        ];
+        let mut bad = false;
+        for (name, src) in progs.iter() {
+            let vm = new_vm();
+            let t = vm.typecheck_str(name, src, None).map(|x| x.1.to_string()).map_err(|e| e.to_string().lines().take(2).collect::<Vec<_>>().join(" | "));
+            let r = std::panic::catch_unwind(std::panic::AssertUnwindSafe(|| vm.run_expr::<i32>(name, src).map(|x| x.0).map_err(|e| e.to_string().lines().take(2).collect::<Vec<_>>().join(" | "))));
+            println!("{}: type {:?}; run {:?}", name, t, r.as_ref().map_err(|_| "HOST PANIC"));
+            if t.is_ok() && !matches!(r, Ok(Ok(3))) { bad = true; }
+        }
+        if bad { std::process::exit(11); }
+    }
     if which == "lazy" {
         let src = r#"let { lazy } = import! std.lazy in lazy (\_ -> error "fail")"#;
         let (l, _) = vm.run_expr::<OpaqueValue<RootedThread, Hole>>("t", src).unwrap(); let l: L = unsafe { std::mem::transmute(l) };
